@@ -313,8 +313,9 @@ static void emitPERSEUS(Rng & rng) {
 // for the Lean model `lsStep`, which is then compared with the real level).  If this walk does not end in the real
 // level (e.g. the heap broke an error tie differently) the line says so and is not compared.
 static void emitLS(Rng & rng) {
-    size_t S = 2 + rng.below(2), A = 1 + rng.below(3), O = 1 + rng.below(2);
-    unsigned h = 1 + (unsigned)rng.below(2);
+    size_t S = 2 + rng.below(3), A = 2 + rng.below(2), O = 1 + rng.below(3);
+    unsigned h = 1 + (unsigned)rng.below(3);
+    if (S == 4) h = std::min(h, 2u);
     auto pt = randomPomdp(rng, S, A, O);
     Model model = toDense(pt);
     P::LinearSupport solver(h, 0.0);
